@@ -167,11 +167,17 @@ def match_finding(findings, prop, sig):
 
 # --------------------------------------------------------------------------- main driver
 
-def ensure_env():
-    """Re-exec with a fixed hash seed so enumeration order and error text are reproducible."""
-    if os.environ.get('PYTHONHASHSEED') != '0' and not os.environ.get('VERIF_KEEP_HASHSEED'):
-        env = dict(os.environ, PYTHONHASHSEED='0')
+def ensure_env(extra=None):
+    """Re-exec with a fixed hash seed (enumeration order and error text reproducible) and the check's own environment."""
+    want = {'PYTHONHASHSEED': '0', **(extra or {})}
+    if any(os.environ.get(k) != v for k, v in want.items()) and not os.environ.get('VERIF_KEEP_ENV'):
+        env = dict(os.environ, **want)
         os.execve(sys.executable, [sys.executable] + sys.argv, env)
+    for stream in (sys.stdout, sys.stderr):
+        try:
+            stream.reconfigure(errors='backslashreplace')     # a C locale must not make a report line unprintable
+        except Exception:  # noqa
+            pass
 
 
 def write_replay(prop, viol):
@@ -186,7 +192,7 @@ def write_replay(prop, viol):
 
 def confirm(prop, path):
     """Re-run one replay file in a fresh interpreter. Returns 'violation', 'clean' or 'fault'."""
-    env = dict(os.environ, PYTHONHASHSEED='0')
+    env = dict(os.environ)
     p = subprocess.run([PY, os.path.join(VERIF, 'check'), prop, '--replay', path, '--quiet'],
                        env=env, capture_output=True, text=True, timeout=600)
     if p.returncode == 1:
